@@ -1,3 +1,10 @@
+/-
+Derivative ("jet") kernels.  Index `(i, none)` = value at `x_i`, `(i, some a)` = partial derivative `∂/∂x_a` at `x_i`.
+`jetProd A B` is the value / gradient block matrix of the PRODUCT of two kernels given their block matrices (Leibniz rule in
+each argument); it maps Gram matrices of features `(φ, ∂φ)`, `(ψ, ∂ψ)` to the Gram matrix of `(φψ, ∂φ ψ + φ ∂ψ)`, hence
+preserves PSD.  The blocks of `s(x,y) = ⟨x,y⟩ + c` are a Gram matrix (features `(x, √c)`, `(e_a, 0)`), so by induction the
+blocks of `s^p` — exactly what `PolynomialKernelGrad.forward` assembles — are PSD.
+-/
 import GPVerif.Bridge.PSD
 
 open Matrix
@@ -51,10 +58,6 @@ theorem jetProd_psd {A B : Matrix (ι × Option d) (ι × Option d) ℝ} (hA : A
     (of fun (ml : (ι × Option d) × (ι × Option d)) u => C ml.1 u * C' ml.2 (jb u) + je u * (C ml.1 (jb u) * C' ml.2 u))
   rwa [conjTranspose_eq_transpose_of_trivial] at this
 
-end C07
-
-namespace C07
-variable {ι d : Type*} [Fintype ι] [Fintype d] [DecidableEq d]
 
 /-- value / derivative blocks of the bilinear kernel `s(x, y) = ⟨x, y⟩ + c`:
 `[s(x_i,x_j), ∂s/∂y_b = x_i b; ∂s/∂x_a = x_j a, ∂²s/∂x_a∂y_b = δ_ab]`. -/
